@@ -9,9 +9,9 @@ def run(R, ctx):
     execsuite.run_exec_suite(
         R, ctx, name="strings-keys",
         gens=[(8, execgen.string_cmd)] + [(1, g) for _, g in families.all_gens()[1:]],   # other families only to create keys of other types
-        nprog=(400, 6000), corpus="exec_c01",
+        nprog=(400, 6000), corpus="exec_c01", extra_lines=families.arith_grid("string"),
         what="string and generic key commands (SET with every option combination, GET, MSET, MGET, SETNX, SETEX, APPEND, STRLEN, GETRANGE, "
-             "SETRANGE, INCR family, DEL, EXISTS, TYPE, RENAME, KEYS, PING, EXPIRE, PERSIST, TTL)")
+             "SETRANGE, INCR family, DEL, EXISTS, TYPE, RENAME, KEYS incl. escape-only patterns, PING, EXPIRE, PERSIST, TTL); the int64 boundary grid: every pair (stored value, operand) of 11 edge values through INCRBY/DECRBY, each edge value through INCR/DECR")
 
 
 def replay(R, payload):
